@@ -25,6 +25,7 @@ import Midgard.Proofs.C20Spline
 import Midgard.Proofs.C20Stats
 import Midgard.Proofs.C20Grid
 import Midgard.Proofs.C20DerivAll
+import Midgard.Proofs.C20Tensor
 
 namespace Midgard.Props.C20
 open Midgard.Numeric Midgard.Generated.C20 Midgard.Proofs.C20
@@ -444,6 +445,25 @@ theorem grid_bilinear_linear (xs ys : List ℚ) (g₁ g₂ g₃ : List (List ℚ
     bilinearAt xs ys g₃ x y = a * bilinearAt xs ys g₁ x y + b * bilinearAt xs ys g₂ x y :=
   bilinear_linear xs ys g₁ g₂ g₃ hnx hny l₁ l₂ l₃ a b x y hcomb
 
+/-! ## Bicubic spline on a grid (`spatial_interpolation.rect_bivariate_spline`: SciPy `RectBivariateSpline`, specified
+by `bicubicAt` — the tensor product of not-a-knot splines; the tie is the correspondence) -/
+
+/-- reproduces the grid values at the grid nodes and every tensor cubic `Σ cₐᵦ xᵃ yᵇ` (a, b ≤ 3; written as a cubic in
+`x` whose four coefficients are cubics in `y`) everywhere -/
+theorem grid_bicubic_nodes_and_exactness (xs ys : List ℚ) (grid : List (List ℚ)) (hx : xs.Pairwise (· < ·))
+    (hy : ys.Pairwise (· < ·)) (hnx : 4 ≤ xs.length) (hny : 4 ≤ ys.length) (hg : grid.length = ys.length) :
+    (∀ k i v, k < ys.length → i < xs.length → bicubicAt xs ys grid (xs.getD i 0) (ys.getD k 0) = some v →
+      v = (grid.getD k []).getD i 0) ∧
+    (∀ a0 a1 a2 a3 b0 b1 b2 b3 c0 c1 c2 c3 d0 d1 d2 d3 : ℚ,
+      (∀ k i, k < ys.length → i < xs.length → (grid.getD k []).getD i 0 =
+        cubicAt (cubicAt a0 a1 a2 a3 (ys.getD k 0)) (cubicAt b0 b1 b2 b3 (ys.getD k 0)) (cubicAt c0 c1 c2 c3 (ys.getD k 0))
+          (cubicAt d0 d1 d2 d3 (ys.getD k 0)) (xs.getD i 0)) →
+      ∀ x y v, bicubicAt xs ys grid x y = some v →
+        v = cubicAt (cubicAt a0 a1 a2 a3 y) (cubicAt b0 b1 b2 b3 y) (cubicAt c0 c1 c2 c3 y) (cubicAt d0 d1 d2 d3 y) x) :=
+  ⟨fun k i v hk hi h => bicubic_node xs ys grid hx hy (by omega) (by omega) hg k i hk hi v h,
+   fun a0 a1 a2 a3 b0 b1 b2 b3 c0 c1 c2 c3 d0 d1 d2 d3 hd x y v h =>
+     bicubic_exact xs ys grid hx hy hnx hny hg a0 a1 a2 a3 b0 b1 b2 b3 c0 c1 c2 c3 d0 d1 d2 d3 x y v hd h⟩
+
 /-! ## `planetary_motion.gsdtime_sun`: the angles that are rational in the date -/
 
 /-- the mean longitude and the Greenwich sidereal angle lie in [0, 360); the sidereal angle does not change when
@@ -661,6 +681,8 @@ example : regularGrid [0, 1, 3] [0, 2] [[0, 1, 3], [4, 7, 13]] [(1 / 2, 1), (3, 
 example : gmstAngle sunGst0 sunGstRate (57448 - sunEpoch) 0 = 1592289530189 / 10000000000 := by decide +kernel   -- 159.2289530189°: 2016-03-01 0h, the value pinned by the test suite
 example : interpDeriv (nakSpline [0, 1, 2, 3, 5] [[0], [1], [8], [27], [125]] 1) [2] (1 / 2) = .ok ([[8]], [[49 / 4]]) := by
   decide +kernel      -- y = x³ at 2: 3·2² + dx² = 12 + 1/4
+example : bicubicAt [0, 1, 2, 3] [0, 1, 2, 4] [[0, 0, 0, 0], [0, 1, 8, 27], [0, 2, 16, 54], [0, 4, 32, 108]] (3 / 2) 3
+    = some (81 / 8) := by decide +kernel      -- x³·y at (3/2, 3)
 example : lagrange [0, 1, 1, 3] [[0], [1], [4], [9]] 1 3 true false 2 [1 / 2] = .error .unsorted := by decide +kernel
 example : (computeDops [⟨1/2, 1/2, 1, 0⟩, ⟨1/2, 1/2, 0, 1⟩, ⟨1/2, 1/2, -1, 0⟩, ⟨0, 1, 1, 0⟩, ⟨3/5, 4/5, 0, -1⟩]).isSome = true := by
   decide +kernel
@@ -716,6 +738,7 @@ end Midgard.Props.C20
 #print axioms Midgard.Props.C20.barycentric_derivative_polynomial
 #print axioms Midgard.Props.C20.grid_bilinear_nodes_and_exactness
 #print axioms Midgard.Props.C20.grid_bilinear_linear
+#print axioms Midgard.Props.C20.grid_bicubic_nodes_and_exactness
 #print axioms Midgard.Props.C20.sun_angles
 #print axioms Midgard.Props.C20.unit_vector_identities
 #print axioms Midgard.Props.C20.norm_identities
